@@ -20,6 +20,7 @@ mod model;
 mod props;
 mod runner;
 mod script;
+mod sweep;
 mod world;
 
 #[global_allocator]
@@ -35,6 +36,7 @@ fn main() {
         "run" => runner::launcher(&args[2..]),
         "worker" => runner::worker(&args[2..]),
         "replay" => runner::replay_cmd(&args[2..]),
+        "sweepworker" => runner::sweep_worker(&args[2..]),
         _ => {
             eprintln!("unknown command {}", args[1]);
             2
